@@ -223,7 +223,9 @@ func boundaryCountFamily(budget time.Duration) mc.Family {
 			}
 			return v
 		},
-		Describe:    func(item int) string { return "operator " + allOps[item%len(allOps)] + " on " + stacks[item/len(allOps)] },
+		Describe: func(item int) string {
+			return "operator " + allOps[item%len(allOps)] + " on " + stacks[item/len(allOps)]
+		},
 		CrashKey:    func(item int) string { return "C01:crash:ps-operator:" + allOps[item%len(allOps)] },
 		HangSeconds: 40,
 	}
